@@ -216,6 +216,10 @@ class BinaryCarver(BaseCarver):
         dict[str, float]
             Cramér's V and Tschuprow's as a dict.
         """
+        # no association can be measured when a class or a modality has no observation
+        if (xtab.sum(axis=0) == 0).any() or (xtab.sum(axis=1) == 0).any():
+            return {"cramerv": 0.0, "tschuprowt": 0.0}
+
         # number of values taken by the features
         n_mod_x = xtab.shape[0]
 
